@@ -7,7 +7,7 @@ from sismic.model import (BasicState, CompoundState, DeepHistoryState, FinalStat
 
 from .. import gen, engine
 from ..decode import chart_from_json, state_from_json
-from ..encode import ChartEnc, kind_of
+from ..encode import ChartEnc, enc_code, kind_of
 from ..framework import Case, Prop
 
 KINDS = {'basic': BasicState, 'compound': CompoundState, 'orthogonal': OrthogonalState, 'final': FinalState,
@@ -129,6 +129,15 @@ class C16(Prop):
                 op = [k, {'id': 0, 'source': pick(), 'target': rnd.choice([None, pick(), pick()]),
                           'event': rnd.choice([None, 'e', 'f']), 'guard': None, 'action': None,
                           'priority': rnd.choice([0, 0, 1, -1, 5])}]
+                if sc2.transitions and rnd.random() < 0.3:
+                    # a look-alike of a transition that is there: same ends and event, another priority or guard
+                    t0 = rnd.choice(sc2.transitions)
+                    j0 = copy.deepcopy(ChartEnc(sc2).json['transitions'][ChartEnc(sc2).tid(t0)])
+                    if rnd.random() < 0.6:
+                        j0['priority'] = rnd.choice([p for p in (-1, 0, 1, 2, 5) if p != j0.get('priority', 0)])
+                    else:
+                        j0['guard'] = enc_code(rnd.choice(['x > 1', 'x < 5', 'v0']), 'eval')[0]
+                    op = [k, j0]
             elif k == 'remove_transition':
                 ts = sc2.transitions
                 if ts and rnd.random() < 0.85:
@@ -186,6 +195,15 @@ class C16(Prop):
                 failed.add(k)
                 if ob['err'].startswith('OTHER'):
                     res.violations.append('op %d %s raised %s' % (i, k, ob['err']))
+                if k == 'remove_transition':
+                    src = lambda c: (c or {}).get('src') if isinstance(c, dict) else c
+                    j = op[1]
+                    want = {'source': j['source'], 'target': j.get('target'), 'event': j.get('event'),
+                            'guard': src(j.get('guard')), 'action': src(j.get('action')), 'priority': j.get('priority', 0),
+                            'pre': [src(c) for c in j.get('pre', [])], 'post': [src(c) for c in j.get('post', [])],
+                            'inv': [src(c) for c in j.get('inv', [])]}
+                    if any(t == want for t in prev['transitions']):
+                        res.violations.append('op %d remove_transition of a transition the statechart holds raised %s' % (i, ob['err']))
                 if k != 'validate' and cur != prev:
                     res.violations.append('op %d %s%s raised %s but changed the statechart: %s'
                                           % (i, k, op[1:], ob['err'], engine.diff(prev, cur)))
@@ -251,6 +269,23 @@ class C16(Prop):
             if k in ('add_transition',):
                 if cur['transitions'][:-1] != prev['transitions'] or len(cur['transitions']) != len(prev['transitions']) + 1:
                     res.violations.append('op %d add_transition: not appended' % i)
+            if k == 'remove_transition':
+                # exactly the first transition with the same source, target, event, guard, action, priority and
+                # contract is gone (compared field by field: not through Transition.__eq__)
+                def flat(j):
+                    src = lambda c: (c or {}).get('src') if isinstance(c, dict) else c
+                    return {'source': j['source'], 'target': j.get('target'), 'event': j.get('event'),
+                            'guard': src(j.get('guard')), 'action': src(j.get('action')), 'priority': j.get('priority', 0),
+                            'pre': [src(c) for c in j.get('pre', [])], 'post': [src(c) for c in j.get('post', [])],
+                            'inv': [src(c) for c in j.get('inv', [])]}
+                want = flat(op[1])
+                idx = next((n for n, t in enumerate(prev['transitions']) if t == want), None)
+                if idx is None:
+                    res.violations.append('op %d remove_transition of a transition the statechart does not hold succeeded' % i)
+                elif cur['transitions'] != prev['transitions'][:idx] + prev['transitions'][idx + 1:]:
+                    res.violations.append('op %d remove_transition did not remove exactly the first transition equal to the '
+                                          'given one (%s)' % (i, engine.diff(cur['transitions'],
+                                                                             prev['transitions'][:idx] + prev['transitions'][idx + 1:])))
             if k in ('add_transition', 'remove_transition', 'rotate_transition') and cur['states'] != prev['states']:
                 res.violations.append('op %d %s changed the states' % (i, k))
             if k == 'rotate_transition' and op[1] is not None:
@@ -301,7 +336,14 @@ def apply_op(sc, op):
     elif k == 'move_state':
         sc.move_state(op[1], op[2])
     elif k == 'add_transition':
-        sc.add_transition(trans_from_json(op[1]))
+        t = trans_from_json(op[1])
+        for c in op[1].get('pre', []):
+            t.preconditions.append(c['src'])
+        for c in op[1].get('post', []):
+            t.postconditions.append(c['src'])
+        for c in op[1].get('inv', []):
+            t.invariants.append(c['src'])
+        sc.add_transition(t)
     elif k == 'remove_transition':
         t = trans_from_json(op[1])
         for c in op[1].get('pre', []):
